@@ -25,7 +25,8 @@ EXPLANATION = (
     "and the reader turns an unknown label into RINGReaderError. R04.6: "
     "the matcher (candidate enumeration with its explicit match cap, the "
     "per-atom constraint evaluators) is unchanged in normal form from its "
-    "reviewed references.")
+    "reviewed references, and the library entry point hands the structure "
+    "it is given, whole, to the scheme.")
 NOT_DECIDED = ("that RDKit's substructure search maps a connected query "
                "into a single component, and that per-atom RDKit accessors "
                "(ring info, neighbours) are component-local -- the core of "
